@@ -174,7 +174,10 @@ theorem getMillis_lt (s : Bytes) (n : Nat) (h : getMillis s = some n) : n < 1000
           have := digitVal_le c hc.2
           simp only [Option.some.injEq] at h
           omega
-        · cases h
+        · split at h
+          · simp only [Option.some.injEq] at h
+            omega
+          · cases h
     · cases h
   · cases h
 
